@@ -439,6 +439,11 @@ class CallMixin:
         f = st.facts.get(('truthy', v))
         if f is not None:
             return f
+        lc = self._len_cmp(v)
+        if lc is not None:
+            fx = st.facts.get(('truthy', lc[0]))
+            if fx is not None:
+                return lc[1] if fx else (not lc[1])
         if v.k == 'term' and v.a[0] == 'range' and all(x.is_const for x in v.a[1]):
             try:
                 return len(range(*[x.val for x in v.a[1]])) > 0
@@ -448,8 +453,39 @@ class CallMixin:
             return True
         return None
 
+    def _len_cmp(self, v):
+        """cmp between len(X) and a constant 0/1 -> (X, set of truth values of the cmp under which X is non-empty)"""
+        if v.k != 'cmp' or len(v.a[0]) != 1 or len(v.a[1]) != 2:
+            return None
+        op = v.a[0][0]
+        a, b = v.a[1]
+        flip = False
+        if b.k == 'term' and b.a[0] == 'len' and a.is_const:
+            a, b = b, a
+            flip = True
+        if not (a.k == 'term' and a.a[0] == 'len' and len(a.a[1]) == 1 and b.is_const and b.val in (0, 1)
+                and not isinstance(b.val, bool)):
+            return None
+        if flip:
+            op = {'Lt': 'Gt', 'LtE': 'GtE', 'Gt': 'Lt', 'GtE': 'LtE'}.get(op, op)
+        x = a.a[1][0]
+        c = b.val
+        # truth of (len op c) for len == 0 and for len >= 1 (taking len = 1 and a large value)
+        def ev(n):
+            return {'Lt': n < c, 'LtE': n <= c, 'Gt': n > c, 'GtE': n >= c, 'Eq': n == c, 'NotEq': n != c}.get(op)
+        if ev(0) is None:
+            return None
+        e0, e1, e9 = ev(0), ev(1), ev(9)
+        if e1 != e9 or e0 == e1:
+            return None
+        return x, e1   # cmp is e1 exactly when X is non-empty
+
     def assume(self, v, truth, st):
         st.facts[('truthy', v)] = truth
+        lc = self._len_cmp(v)
+        if lc is not None:
+            x, when_nonempty = lc
+            st.facts[('truthy', x)] = (truth == when_nonempty)
         if v.k == 'not':
             self.assume(v.a[0], not truth, st)
         elif v.k == 'cmp':
